@@ -229,6 +229,10 @@ UNITS += [
 ]
 
 KANI = []
+# the last line of in-run dedup -- membership in the pack that is being filled (BasicPacker::has / add_raw, RawPacker::has) --
+# lives in C08's spec (pack layout) and is verified as part of this property's check as well
+SATELLITES = [("C08", "*")]
+
 META = {"not_covered": [
     "the iterator chain around the per-chunk closure of backup_reader (ChunkIter -> map -> collect, the sum of the sizes); the closure itself is the unit backup_chunk, the skip-upload decision of tree_archiver.rs backup_tree is a unit of C01 (ta_backup_tree)",
     "the thread pipeline of Packer::new itself (threads, channels; ABSTRACTED in C03's unit packer_writer_status); its three 'already there' filters ARE units (packer_filter_early / _open_pack / _late; RawPacker::has is a unit of C08)",
